@@ -83,7 +83,18 @@ theorem port_affine_unique (kind : Kind) (s : K) (cs : List (Cpt K)) (p m : Nat)
     vd z p m = vd x0 p m + J * vd xu p m := by
   have h := C01.mna_unique kind s _ z _ hns hz (port_affine kind s cs p m x0 xu J h0 hu)
   rw [← port_voltage_affine]
-  cases p <;> cases m <;> simp [vd, volt, h]
+  -- the probe's own stamp mentions both port nodes, so they are unknowns of the probed netlist
+  have hU : ∀ k, (k = p ∨ k = m) → k ≠ 0 → C01.Unknown kind s (withProbe cs p m J) (.node k) := by
+    intro k hk hk0
+    refine ⟨by simpa using hk0, ?_⟩
+    apply C01.mem_unknowns_stampAll kind s _ (.I p m J) (by simp [withProbe])
+    rcases hk with rfl | rfl <;> simp [C01.unknowns, stamp]
+  have hv : ∀ k, (k = p ∨ k = m) → volt z k = volt (fun i => x0 i + J * xu i) k := by
+    intro k hk
+    cases k with
+    | zero => rfl
+    | succ n => simp only [volt]; exact h _ (hU _ hk (by simp))
+  simp [vd, hv p (Or.inl rfl), hv m (Or.inr rfl)]
 
 /-- **thevenin_norton_equiv**: the Thevenin line v = Voc − Zth·i and the Norton line
     i = Isc − Yn·v with Isc = Voc/Zth, Yn = 1/Zth are the same set of (v, i) pairs; Voc = Isc·Zth
